@@ -964,8 +964,17 @@ func c07EveryWholeFetchFailureIsRecorded(r *fw.Run) {
 		if !ok || len(as.Lhs) != 1 || len(as.Rhs) != 1 {
 			return true
 		}
+		// len(….GetArray()) compared with a constant, in any spelling (> 0, 0 <, != 0, >= 1)
 		b, isB := ast.Unparen(as.Rhs[0]).(*ast.BinaryExpr)
-		if !isB || b.Op != token.GTR || !mentionsCallNamed(info, b.X, "GetArray") {
+		if !isB {
+			return true
+		}
+		switch b.Op {
+		case token.GTR, token.LSS, token.NEQ, token.GEQ, token.LEQ:
+		default:
+			return true
+		}
+		if !mentionsCallNamed(info, b.X, "GetArray") && !mentionsCallNamed(info, b.Y, "GetArray") {
 			return true
 		}
 		if id, isID := as.Lhs[0].(*ast.Ident); isID {
